@@ -41,6 +41,35 @@ example : (allPids (.node 1 [.node 2 [.node 4 [.node 7 []], .node 5 []], .node 3
 example : killList (.node 1 [.node 2 [.node 4 [.node 7 []], .node 5 []], .node 3 [.node 6 []]]) true
     = [1, 2, 3, 4, 5, 7, 6] := by decide
 
+/-! ### the kill channel with denoise: `sudo -n <denoise> --json kill <pid>` -/
+
+/-- with `uses_sudo` the pids handed to `sudo … kill`, one call each and in this order, are
+exactly the kill list of `c16_collect_all` -/
+theorem c16_sudo_calls (t : Tree) (kt : Bool) :
+    sudoCalls t kt = (killList t kt).map (fun p => ["--json", "kill", toString p]) ∧
+    (sudoCalls t kt).length = (killList t kt).length := by
+  simp [sudoCalls]
+
+/-- the privileged helper kills the tree below each pid it is given, so over all calls every
+process of the tree is killed — already by the first call, with or without `kill_tree` —
+and nothing outside the tree -/
+theorem c16_sudo_kills_whole_tree (t : Tree) (kt : Bool) (p : Nat) :
+    p ∈ sudoKilled t kt ↔ p ∈ allPids t := by
+  constructor
+  · intro h
+    simp only [sudoKilled, List.mem_flatMap] at h
+    obtain ⟨q, _, hq⟩ := h
+    unfold privilegedKill at hq
+    split at hq
+    · rename_i st hst
+      exact (findSub_sub t q st hst).2 p ((c16_collect_mem st p).mp hq)
+    · simp at hq
+  · intro h
+    simp only [sudoKilled, List.mem_flatMap]
+    refine ⟨t.pid, by simp [killList], ?_⟩
+    simp only [privilegedKill, findSub_root]
+    exact (c16_collect_mem t p).mpr h
+
 /-! ### "whenever a benchmark process runs longer than max_invocation_time, or ReBench is interrupted … while a benchmark process is running" -/
 
 /-- `is_alive()` tells the truth after a `join` that returned normally (finished or timed out) -/
@@ -114,6 +143,27 @@ theorem c16_interrupt_reraised (s : Situation) (t : Tree) (kt : Bool) (hi : s.jo
     simp [hw]
   refine ⟨hr, ?_⟩
   simp only [runTrace, runTraceWith, hk, hr, endEv]
+
+/-- wherever the interrupt arrives — already while `run` is inside `thread.start()` (a signal at
+the very start of a process), or in the join — a launched worker's child tree is killed first -/
+theorem c16_interrupt_anywhere_kills (at_ : InterruptAt) (s : Situation) (t : Tree)
+    (hi : s.joinEnd = .interrupt) (hr : s.childRunning = true) (p : Nat) (hp : p ∈ allPids t) :
+    Ev.kill p ∈ runTraceAt at_ s t true ∧ (runTraceAt at_ s t true).getLast? = some .raiseInterrupt := by
+  have h := (c16_interrupt_reraised s t true hi).2
+  simp only [runTraceAt, h, hr, if_true]
+  refine ⟨?_, by simp⟩
+  simp only [List.append_assoc, List.mem_append, List.mem_map]
+  exact Or.inl ⟨p, (c16_collect_mem t p).mpr hp, rfl⟩
+
+/-- with `thread.start()` outside the `try` (the tree before the second repair) that is false:
+an interrupt during `start()` leaves the child running -/
+theorem c16_interrupt_at_start_full_fails :
+    ¬ (∀ (at_ : InterruptAt) (s : Situation) (t : Tree), s.joinEnd = .interrupt → s.childRunning = true →
+        Ev.kill t.pid ∈ runTraceStartOutside at_ s t true) := by
+  intro h
+  have := h .start ⟨-1, .interrupt, false, true, false⟩ (.node 1 []) rfl rfl
+  revert this
+  decide
 
 /-- a time-out (no interrupt): the whole kill list, the join, then the E_TIMEOUT result
 with the output read so far -/
